@@ -2,8 +2,8 @@
 import importlib
 
 PROPS = {
-    "C04": [("u_mls", "quick"), ("u_input", "quick"), ("u_pcore", "quick")],
-    "C12": [("u_mls", "quick"), ("u_input", "quick"), ("u_pcore", "quick")],
+    "C04": [("u_mls", "quick"), ("u_input", "quick"), ("u_pcore", "quick"), ("u_tree", "quick")],
+    "C12": [("u_mls", "quick"), ("u_input", "quick"), ("u_pcore", "quick"), ("u_tree", "quick")],
 }
 
 
